@@ -26,6 +26,12 @@ conclusion of `frame_displays_full` verbatim and adds exactly these hypotheses:
 
 Everything else is as in the full statement: any grid pair, any styles, any capability set, any
 width oracle, refresh or not; no bound on sizes.
+
+Further theorems here: `frame_linkParams`, `expected_wf`, `init_wf`, `frame_dims` (the added side
+conditions and the dimension premises are re-established by every frame), `frame_step` (one frame
+takes a `Ready` terminal to a `Ready` terminal that shows the screen) and `history_displays`
+(from the blank terminal, after every frame of any admissible history — refreshes and diff frames in
+any order — the terminal shows exactly the application's screen and `bad = none`).
 -/
 import VaxisModel.Props.C01
 import VaxisModel.Lemmas.RenderDisplay
@@ -54,7 +60,7 @@ theorem frame_displays_partial (cw : String → Nat) (f : Frame) (t : Term)
     (run cw t (renderFrame cw f).2).grid = Expected.expected cw f.caps f.next ∧
     Agree cw f.caps (run cw t (renderFrame cw f).2) (renderFrame cw f).1 := by
   obtain ⟨pre, X, Y, hpre, h1, h2, hX, hY, _⟩ := frame_shape cw f t.rows t.cols hcur
-  obtain ⟨c1, c2, c3, _⟩ := frame_core cw hsp f t X Y pre hX hY hpre hrest.1 hrest.2.1 hlp hbad hlen hlast hgc hnc hlc
+  obtain ⟨c1, c2, c3, _, _, _⟩ := frame_core cw hsp f t X Y pre hX hY hpre hrest.1 hrest.2.1 hlp hbad hlen hlast hgc hnc hlc
     hrows hfits (fun r hr c hc => ⟨(hcells r hr c hc).1, (hcells r hr c hc).2, hw r hr c hc⟩) hagree hwf
   rw [h2]
   refine ⟨c1, c2, ?_⟩
@@ -78,7 +84,7 @@ theorem frame_linkParams (cw : String → Nat) (f : Frame) (t : Term)
     (hlp : t.linkParams = "") :
     (run cw t (renderFrame cw f).2).linkParams = "" := by
   obtain ⟨pre, X, Y, hpre, h1, h2, hX, hY, hlpY⟩ := frame_shape cw f t.rows t.cols hcur
-  obtain ⟨_, _, _, c4⟩ := frame_core cw hsp f t X Y pre hX hY hpre hrest.1 hrest.2.1 hlp hbad hlen hlast hgc hnc hlc
+  obtain ⟨_, _, _, c4, _, _⟩ := frame_core cw hsp f t X Y pre hX hY hpre hrest.1 hrest.2.1 hlp hbad hlen hlast hgc hnc hlc
     hrows hfits (fun r hr c hc => ⟨(hcells r hr c hc).1, (hcells r hr c hc).2, hw r hr c hc⟩) hagree hwf
   rw [h2, c4, hlpY]
 
@@ -99,6 +105,167 @@ theorem init_wf (cols rows : Nat) : ∀ r ∈ (Term.init cols rows).grid, WFRow 
   induction cols with
   | zero => simp [WFRow]
   | succ n ih => simp only [List.replicate_succ, DCell.blank, WFRow]; exact ⟨Nat.le_refl _, ih⟩
+
+/-- Dimensions are not changed by a frame. -/
+theorem frame_dims (cw : String → Nat) (f : Frame) (t : Term)
+    (hrest : Rest t) (hbad : t.bad = none)
+    (hlen : t.grid.length = f.next.length) (hlast : f.last.length = f.next.length)
+    (hgc : ∀ r ∈ t.grid, r.length = t.cols) (hnc : ∀ r ∈ f.next, r.length = t.cols)
+    (hlc : ∀ r ∈ f.last, r.length = t.cols) (hrows : t.rows = f.next.length)
+    (hfits : Fits cw f.next) (hcells : ∀ r ∈ f.next, ∀ c ∈ r, c.sixel = false ∧ 0 ≤ c.w)
+    (hagree : f.refresh = false → Agree cw f.caps t f.last)
+    (hsp : cw "20" = 1)
+    (hw : ∀ r ∈ f.next, ∀ c ∈ r, WidthOk cw f.caps c)
+    (hwf : f.refresh = true → ∀ r ∈ t.grid, WFRow 0 r)
+    (hcur : f.cursorNext.visible = true →
+      (0 ≤ f.cursorNext.row ∧ f.cursorNext.row < t.rows) ∧ (0 ≤ f.cursorNext.col ∧ f.cursorNext.col < t.cols))
+    (hlp : t.linkParams = "") :
+    (run cw t (renderFrame cw f).2).rows = t.rows ∧ (run cw t (renderFrame cw f).2).cols = t.cols := by
+  obtain ⟨pre, X, Y, hpre, h1, h2, hX, hY, _⟩ := frame_shape cw f t.rows t.cols hcur
+  obtain ⟨_, _, _, _, c5, c6⟩ := frame_core cw hsp f t X Y pre hX hY hpre hrest.1 hrest.2.1 hlp hbad hlen hlast hgc hnc hlc
+    hrows hfits (fun r hr c hc => ⟨(hcells r hr c hc).1, (hcells r hr c hc).2, hw r hr c hc⟩) hagree hwf
+  rw [h2]; exact ⟨c5, c6⟩
+
+/-! ### Histories: after *every* frame of a run -/
+
+/-- What the application asks for in one frame. -/
+structure FrameIn where
+  refresh : Bool
+  next : Grid
+  cursor : CursorState
+  shape : String
+
+/-- Terminal plus the renderer's memory between frames. -/
+structure HState where
+  t : Term
+  last : Grid
+  cursor : CursorState
+  shape : String
+
+def mkFrame (caps : Caps) (s : HState) (fi : FrameIn) : Frame :=
+  { caps := caps, refresh := fi.refresh, next := fi.next, last := s.last, cursorNext := fi.cursor,
+    cursorLast := s.cursor, shapeNext := fi.shape, shapeLast := s.shape }
+
+/-- One `Render()`: the tokens reach the terminal, `last`/cursor/shape are remembered. -/
+def stepH (cw : String → Nat) (caps : Caps) (s : HState) (fi : FrameIn) : HState :=
+  { t := run cw s.t (renderFrame cw (mkFrame caps s fi)).2, last := (renderFrame cw (mkFrame caps s fi)).1,
+    cursor := fi.cursor, shape := fi.shape }
+
+/-- Side conditions on the application's frame for a `rows × cols` screen. -/
+def FrameInOk (cw : String → Nat) (caps : Caps) (rows cols : Nat) (fi : FrameIn) : Prop :=
+  fi.next.length = rows ∧ (∀ r ∈ fi.next, r.length = cols) ∧ Fits cw fi.next ∧
+  (∀ r ∈ fi.next, ∀ c ∈ r, c.sixel = false ∧ 0 ≤ c.w ∧ WidthOk cw caps c) ∧
+  (fi.cursor.visible = true →
+    (0 ≤ fi.cursor.row ∧ fi.cursor.row < rows) ∧ (0 ≤ fi.cursor.col ∧ fi.cursor.col < cols))
+
+/-- The terminal is ready for a frame: at rest, nothing terminal-specific relied on so far, a
+    well-formed `rows × cols` grid, and a `last` buffer of the same shape. -/
+structure Ready (t : Term) (last : Grid) (rows cols : Nat) : Prop where
+  rest : Rest t
+  bad : t.bad = none
+  lp : t.linkParams = ""
+  trows : t.rows = rows
+  tcols : t.cols = cols
+  glen : t.grid.length = rows
+  llen : last.length = rows
+  gcols : ∀ r ∈ t.grid, r.length = cols
+  lcols : ∀ r ∈ last, r.length = cols
+  wf : ∀ r ∈ t.grid, WFRow 0 r
+
+/-- **One frame re-establishes everything the next frame needs**, and the terminal shows the
+    application's screen. -/
+theorem frame_step (cw : String → Nat) (caps : Caps) (hsp : cw "20" = 1) (rows cols : Nat) (s : HState)
+    (fi : FrameIn) (hr : Ready s.t s.last rows cols) (hag : fi.refresh = false → Agree cw caps s.t s.last)
+    (hok : FrameInOk cw caps rows cols fi) :
+    Ready (stepH cw caps s fi).t (stepH cw caps s fi).last rows cols ∧
+    Agree cw caps (stepH cw caps s fi).t (stepH cw caps s fi).last ∧
+    (stepH cw caps s fi).t.grid = Expected.expected cw caps fi.next ∧ (stepH cw caps s fi).t.bad = none := by
+  obtain ⟨o1, o2, o3, o4, o5⟩ := hok
+  have hnc : ∀ r ∈ (mkFrame caps s fi).next, r.length = s.t.cols := by rw [hr.tcols]; exact o2
+  have hlc : ∀ r ∈ (mkFrame caps s fi).last, r.length = s.t.cols := by rw [hr.tcols]; exact hr.lcols
+  have hgc : ∀ r ∈ s.t.grid, r.length = s.t.cols := by rw [hr.tcols]; exact hr.gcols
+  have hcells : ∀ r ∈ (mkFrame caps s fi).next, ∀ c ∈ r, c.sixel = false ∧ 0 ≤ c.w :=
+    fun r h c hc => ⟨(o4 r h c hc).1, (o4 r h c hc).2.1⟩
+  have hw : ∀ r ∈ (mkFrame caps s fi).next, ∀ c ∈ r, WidthOk cw (mkFrame caps s fi).caps c :=
+    fun r h c hc => (o4 r h c hc).2.2
+  have hcur : (mkFrame caps s fi).cursorNext.visible = true →
+      (0 ≤ (mkFrame caps s fi).cursorNext.row ∧ (mkFrame caps s fi).cursorNext.row < s.t.rows) ∧
+      (0 ≤ (mkFrame caps s fi).cursorNext.col ∧ (mkFrame caps s fi).cursorNext.col < s.t.cols) := by
+    rw [hr.trows, hr.tcols]; exact o5
+  have hlen : s.t.grid.length = (mkFrame caps s fi).next.length := by rw [hr.glen]; exact o1.symm
+  have hlast : (mkFrame caps s fi).last.length = (mkFrame caps s fi).next.length := by
+    show s.last.length = fi.next.length
+    rw [hr.llen, o1]
+  have hrows : s.t.rows = (mkFrame caps s fi).next.length := by rw [hr.trows]; exact o1.symm
+  obtain ⟨d1, d2, d3⟩ := frame_displays_partial cw (mkFrame caps s fi) s.t hr.rest hr.bad hlen hlast hgc hnc hlc hrows
+    o3 hcells hag hsp hw (fun _ => hr.wf) hcur hr.lp
+  have d4 := frame_linkParams cw (mkFrame caps s fi) s.t hr.rest hr.bad hlen hlast hgc hnc hlc hrows
+    o3 hcells hag hsp hw (fun _ => hr.wf) hcur hr.lp
+  obtain ⟨d5, d6⟩ := frame_dims cw (mkFrame caps s fi) s.t hr.rest hr.bad hlen hlast hgc hnc hlc hrows
+    o3 hcells hag hsp hw (fun _ => hr.wf) hcur hr.lp
+  have d7 := flush_epilogue cw cw (mkFrame caps s fi) s.t hr.rest
+  have hex : Expected.expected cw caps (renderFrame cw (mkFrame caps s fi)).1 = Expected.expected cw caps fi.next := by
+    unfold Agree at d3; exact d3.symm.trans d2
+  obtain ⟨e1, e2⟩ := expected_dims cw caps cols _ _ hex o2
+  refine ⟨⟨d7, d1, d4, d5.trans hr.trows, d6.trans hr.tcols, ?_, e1.trans o1, ?_, e2, ?_⟩, d3, d2, d1⟩
+  · show (run cw s.t (renderFrame cw (mkFrame caps s fi)).2).grid.length = rows
+    rw [d2]; simp [Expected.expected]; exact o1
+  · show ∀ r ∈ (run cw s.t (renderFrame cw (mkFrame caps s fi)).2).grid, r.length = cols
+    rw [d2]
+    intro r hr'
+    obtain ⟨l, hl, rfl⟩ := List.mem_map.mp hr'
+    rw [expectedRow_length]; exact o2 l hl
+  · show ∀ r ∈ (run cw s.t (renderFrame cw (mkFrame caps s fi)).2).grid, WFRow 0 r
+    rw [d2]; exact expected_wf cw caps _
+
+/-- From a synchronized state, after any non-empty sequence of admissible frames the terminal
+    shows the screen of the last one. -/
+theorem history_step (cw : String → Nat) (caps : Caps) (hsp : cw "20" = 1) (rows cols : Nat) :
+    ∀ (fis : List FrameIn) (s : HState), Ready s.t s.last rows cols → Agree cw caps s.t s.last →
+      (∀ fi ∈ fis, FrameInOk cw caps rows cols fi) → ∀ fi, fis.getLast? = some fi →
+      (fis.foldl (stepH cw caps) s).t.grid = Expected.expected cw caps fi.next ∧
+      (fis.foldl (stepH cw caps) s).t.bad = none := by
+  intro fis
+  induction fis with
+  | nil => intro s _ _ _ fi h; simp at h
+  | cons a rest ih =>
+    intro s hr hag hok fi hlast
+    obtain ⟨r1, a1, g1, b1⟩ := frame_step cw caps hsp rows cols s a hr (fun _ => hag) (hok a (by simp))
+    cases rest with
+    | nil =>
+      simp only [List.getLast?_singleton, Option.some.injEq] at hlast
+      subst hlast
+      exact ⟨g1, b1⟩
+    | cons b rest' =>
+      rw [List.getLast?_cons_cons] at hlast
+      exact ih (stepH cw caps s a) r1 a1 (fun fi h => hok fi (by simp [h])) fi hlast
+
+theorem init_ready (cols rows : Nat) : Ready (Term.init cols rows) (blankGrid cols rows) rows cols := by
+  refine ⟨⟨rfl, rfl, rfl⟩, rfl, rfl, rfl, rfl, by simp [Term.init], by simp [blankGrid], ?_, ?_, init_wf cols rows⟩
+  · intro r hr; simp only [Term.init, List.mem_replicate] at hr; rw [hr.2]; simp
+  · intro r hr; simp only [blankGrid, List.mem_replicate] at hr; rw [hr.2]; simp
+
+/-- **C01, cell-content clause, over whole histories**: start from the blank terminal (as after
+    `resize`, where vaxis forces the first frame to be a refresh); after *every* frame of *any*
+    sequence of admissible frames — diff frames and refreshes in any order — the reference terminal
+    shows exactly the application's screen and nothing terminal-specific was relied on. -/
+theorem history_displays (cw : String → Nat) (caps : Caps) (hsp : cw "20" = 1) (rows cols : Nat)
+    (fi0 : FrameIn) (fis : List FrameIn) (h0 : fi0.refresh = true)
+    (hok : ∀ fi ∈ fi0 :: fis, FrameInOk cw caps rows cols fi) (fi : FrameIn)
+    (hlast : (fi0 :: fis).getLast? = some fi) :
+    ((fi0 :: fis).foldl (stepH cw caps) ⟨Term.init cols rows, blankGrid cols rows, {}, ""⟩).t.grid
+      = Expected.expected cw caps fi.next ∧
+    ((fi0 :: fis).foldl (stepH cw caps) ⟨Term.init cols rows, blankGrid cols rows, {}, ""⟩).t.bad = none := by
+  obtain ⟨r1, a1, g1, b1⟩ := frame_step cw caps hsp rows cols ⟨Term.init cols rows, blankGrid cols rows, {}, ""⟩ fi0
+    (init_ready cols rows) (fun h => by rw [h0] at h; exact absurd h (by simp)) (hok fi0 (by simp))
+  cases fis with
+  | nil =>
+    simp only [List.getLast?_singleton, Option.some.injEq] at hlast
+    subst hlast
+    exact ⟨g1, b1⟩
+  | cons b rest =>
+    rw [List.getLast?_cons_cons] at hlast
+    exact history_step cw caps hsp rows cols (b :: rest) _ r1 a1 (fun fi h => hok fi (by simp [h])) fi hlast
 
 /-! Non-vacuity: a concrete two-frame history meets all hypotheses (first a refresh onto the blank
     terminal, then a diff frame that replaces a wide glyph by narrow ones). -/
@@ -158,5 +325,35 @@ example :
   · intro h; exact absurd h (by decide)
   · intro _; decide
   · decide
+
+/-- Non-vacuity of `history_displays`: the two frames above form an admissible history. -/
+example :
+    let fi0 : FrameIn := ⟨true, frame1.next, {}, ""⟩
+    let fi1 : FrameIn := ⟨false, frame2.next, { visible := true, col := 1 }, "text"⟩
+    ([fi0, fi1].foldl (stepH cwEx {}) ⟨Term.init 3 1, blankGrid 3 1, {}, ""⟩).t.grid
+      = Expected.expected cwEx {} fi1.next ∧
+    ([fi0, fi1].foldl (stepH cwEx {}) ⟨Term.init 3 1, blankGrid 3 1, {}, ""⟩).t.bad = none := by
+  intro fi0 fi1
+  have hcells : ∀ (g : Grid), (g = frame1.next ∨ g = frame2.next) →
+      ∀ r ∈ g, ∀ c ∈ r, c.sixel = false ∧ 0 ≤ c.w ∧ WidthOk cwEx {} c := by
+    intro g hg r hr c hc
+    rcases hg with rfl | rfl <;>
+    · simp only [frame1, frame2, List.mem_cons, List.not_mem_nil, or_false] at hr
+      subst hr
+      simp only [List.mem_cons, List.not_mem_nil, or_false] at hc
+      rcases hc with rfl | rfl | rfl <;> exact ⟨rfl, by decide, Or.inl rfl⟩
+  have hfits : ∀ (g : Grid), (g = frame1.next ∨ g = frame2.next) → Fits cwEx g := by
+    intro g hg r hr
+    rcases hg with rfl | rfl <;>
+    · simp only [frame1, frame2, List.mem_cons, List.not_mem_nil, or_false] at hr
+      subst hr
+      simp [FitsRow, Expected.cellWidth, cwEx]
+  apply history_displays cwEx {} rfl 1 3 fi0 [fi1] rfl
+  · intro fi hfi
+    simp only [List.mem_cons, List.not_mem_nil, or_false] at hfi
+    rcases hfi with rfl | rfl
+    · exact ⟨rfl, by decide, hfits _ (Or.inl rfl), hcells _ (Or.inl rfl), fun h => absurd h (by decide)⟩
+    · exact ⟨rfl, by decide, hfits _ (Or.inr rfl), hcells _ (Or.inr rfl), fun _ => by decide⟩
+  · rfl
 
 end VaxisModel.Props.C01Display
